@@ -704,3 +704,7 @@ def _relation(host, entries):
 
 def sample_view(sc, r):
     return {k: sc.get(k) for k in ("scheme", "host", "opt_proxy", "opt_auth", "opt_no_proxy", "env", "status", "target_port", "redirect", "api")}
+
+
+# round 7 summary for the evidence file
+RULE = RULE + "  Round 7: 'prelude' - up to three earlier connections of the same process to the same target with other proxy options (other credentials, none, exempt, direct) before the judged one (family 'successive': judged {credentials A, none, exempt, direct} x earlier {credentials B, none, exempt, direct} x scheme x api; 15 % of the seeded scenarios): nothing is inherited."
